@@ -50,7 +50,29 @@ def check(run):
                 seen.add((b["why"], key))
                 if os.environ.get("VERIF_COLLECT"):      # maintenance aid (tools/c07_known.py): never used by the registered commands
                     open(os.environ["VERIF_COLLECT"], "a").write(json.dumps([b["why"], shape, key]) + "\n")
-                run.violation({"why": b["why"], "shape": shape, "input": key}, wit)
+                # the defective solver reads uninitialised / out-of-range data on some of these inputs, so the SYMPTOM (wrong point, bottom,
+                # crash, hang) of a listed input can change from run to run: an input listed under any C07 finding is matched by that finding
+                why_l, shape_l = b["why"], shape
+                if key in _listed():
+                    why_l, shape_l = _listed()[key]
+                    wit = dict(wit, symptom_in_this_run=b["why"])
+                run.violation({"why": why_l, "shape": shape_l, "input": key}, wit)
+
+
+_LISTED = None
+
+
+def _listed():
+    """input key -> (why, shape) of the known finding that lists it"""
+    global _LISTED
+    if _LISTED is None:
+        _LISTED = {}
+        for f in core.load_known():
+            if f.get("property") == "C07":
+                m = f.get("match", {})
+                for i in m.get("input", []):
+                    _LISTED.setdefault(i, (m.get("why"), m.get("shape")))
+    return _LISTED
 
 
 def replay(v):
